@@ -93,7 +93,7 @@ func TestC08(t *testing.T) {
 		report(t, c, r)
 	}
 	g := cfg()
-	vcore.Check(t, vcore.N(400, 3000), func(rt *rapid.T) {
+	vcore.Check(t, vcore.N(1200, 4000), func(rt *rapid.T) {
 		c := sessmodel.Case{Ops: sessmodel.Gen(rt, g)}
 		r := sessmodel.Run(c, or)
 		account(c, r)
